@@ -41,7 +41,8 @@ CHECKS["C19"] = {
 
 PFCP_ASSUME = [
     "logrus calls are no-ops (Fatal* = process exit event); fmt/pkg-errors formatting is an intrinsic (pkg/errors.Wrap(nil)==nil kept); go-pfcp's informational logger and encoding/hex.Dump (argument of a Tracef) are empty stubs",
-    "UDP: WriteTo appends to a log, no loss/reordering; timers never fire by themselves",
+    "UDP: WriteTo appends to a log, no loss/reordering, and never fails except towards 192.0.2.9 (the one send failure modelled; natively the loop-back bound socket is refused the same way); timers fire only when a harness fires them (zzFireTimer)",
+    "native replays run in a private network namespace when unshare -n is permitted (fixed loop-back endpoints 127.0.0.1-3:8805, 127.0.0.1:8806, :2152 would otherwise collide between checks running at the same time)",
     "time.Now is a fixed concrete instant; node ids are IPv4 literals (no DNS)",
     "map iteration in insertion order in the engine (Go randomises); oracles treat map-ordered outputs as multisets",
 ]
@@ -85,10 +86,10 @@ CHECKS["C01"] = {
         "quick": [{"pkg": "internal/pfcp", "entries": ["ZZ_C01_*"], "witnesses": 3, "max_paths": 400000, "budget_s": 600}],
         "thorough": [{"pkg": "internal/pfcp", "entries": ["ZZ_C01_*"], "witnesses": 6, "max_paths": 5000000, "budget_s": 3000}],
     },
-    "covers": {"all": ["ZZ_C01_FAR:C01.hist.done", "ZZ_C01_FAR:C01.est.done", "ZZ_C01_FAR:C01.mod.done", "ZZ_C01_FAR:C01.del.done",
+    "covers": {"all": ["ZZ_C01_OwnNodeID:C01.own-nodeid.done", "ZZ_C01_FAR:C01.hist.done", "ZZ_C01_FAR:C01.est.done", "ZZ_C01_FAR:C01.mod.done", "ZZ_C01_FAR:C01.del.done",
                        "ZZ_C01_FAR:C01.assoc.ended-session", "ZZ_C01_FAR:C01.reportrsp.done", "ZZ_C01_URR:C01.hist.done", "ZZ_C01_PDR:C01.hist.done", "ZZ_C01_PDRURR:C01.hist.done", "ZZ_C01_PDRURR:C01.del.done"]},
     "bounds": {
-        "quick": "histories of 3 steps after an association, per rule kind (FAR, QER, BAR, URR, PDR): each step one of Association Setup (2 nodes; node A from its usual or from another source address), Establishment (0..2 Create IEs), Modification (one Create/Update/Remove/Query IE), Deletion, Session Report Response (SEID 0 or not); rule ids from {1,2} or unconstrained; one symbolic fault per create/update/query data-plane call",
+        "quick": "histories of 3 steps after an association, per rule kind (FAR, QER, BAR, URR, PDR): each step one of Association Setup (2 nodes; node A from its usual or from another source address), Establishment (0..2 Create IEs), Modification (one Create/Update/Remove/Query IE), Deletion, Session Report Response (SEID 0 or not); rule ids from {1,2} or unconstrained; one symbolic fault per create/update/query data-plane call; plus one fixed history: Establishment, 1..2 Modifications that carry the owner's OWN Node ID, re-association",
         "thorough": "same with 4 steps",
     },
     "outside": "longer histories; more than 2 addressed sessions; several rule kinds mixed in one history (each kind is a separate shard); remove failures (excluded by the property's fault model)",
@@ -163,10 +164,10 @@ CHECKS["C09"] = {
         "quick": [{"pkg": "internal/pfcp", "entries": ["ZZ_C09_*"], "witnesses": 3, "max_paths": 400000, "budget_s": 900}],
         "thorough": [{"pkg": "internal/pfcp", "entries": ["ZZ_C09_*"], "witnesses": 6, "max_paths": 4000000, "budget_s": 3000}],
     },
-    "covers": {"all": ["ZZ_C09_Crossed:C09.crossed.timeout-first", "ZZ_C09_Crossed:C09.crossed.response-first", "ZZ_C09_Loop:C09.done", "ZZ_C09_Loop:C09.retry", "ZZ_C09_Loop:C09.abandon", "ZZ_C09_Loop:C09.response.matched",
+    "covers": {"all": ["ZZ_C09_FirstWriteFails:C09.writefail.done", "ZZ_C09_Crossed:C09.crossed.timeout-first", "ZZ_C09_Crossed:C09.crossed.response-first", "ZZ_C09_Loop:C09.done", "ZZ_C09_Loop:C09.retry", "ZZ_C09_Loop:C09.abandon", "ZZ_C09_Loop:C09.response.matched",
                        "ZZ_C09_Loop:C09.response.unmatched", "ZZ_C09_Loop:C09.expiry.dead"]},
     "bounds": {
-        "quick": "the real event loop; transmit counter symbolic over the whole 32-bit range (so that a run can sit on either side of, or cross, the 2^24 and the 2^32 boundary), retry limit 0..3, 1..2 Session Report Requests for two sessions of two peers, then 3 events each a retransmission-timer expiry of either request or a Session Report Response from either peer with a symbolic 24-bit sequence number, in every order; plus the crossing of a response with the expiry of the same request's timer: the timer really fires (zzFireTimer), the response arrives too, and the two case bodies of the loop's select run in either order (the harness plays the select so that both orders replay natively), after 0..1 earlier retransmissions, retry limit 0..3; responses come from peer A, peer B or a second endpoint on A's host; expiries are the real timers firing",
+        "quick": "the real event loop; transmit counter symbolic over the whole 32-bit range (so that a run can sit on either side of, or cross, the 2^24 and the 2^32 boundary), retry limit 0..3, 1..2 Session Report Requests for two sessions of two peers, then 3 events each a retransmission-timer expiry of either request or a Session Report Response from either peer with a symbolic 24-bit sequence number, in every order; plus the crossing of a response with the expiry of the same request's timer: the timer really fires (zzFireTimer), the response arrives too, and the two case bodies of the loop's select run in either order (the harness plays the select so that both orders replay natively), after 0..1 earlier retransmissions, retry limit 0..3; responses come from peer A, peer B or a second endpoint on A's host; expiries are the real timers firing; a request whose first transmission fails at the socket (destination 192.0.2.9), retry limit 0..2: timer armed, retried, abandoned, released",
         "thorough": "same with 4 events",
     },
     "outside": "more than 2 outstanding requests; real timers (an expiry is injected only for a transaction whose timer the code armed)",
@@ -262,11 +263,11 @@ CHECKS["C13"] = {
         "thorough": [{"pkg": "internal/pfcp", "entries": ["ZZ_C13_*"], "witnesses": 6, "max_paths": 4000000, "budget_s": 3000},
                      {"pkg": "internal/forwarder", "entries": ["ZZ_C13_*"], "witnesses": 6, "max_paths": 4000000, "budget_s": 3000}],
     },
-    "covers": {"all": ["ZZ_C13_Queue:C13.queue.done", "ZZ_C13_Queue:C13.queue.overflow-dropped", "ZZ_C13_Queue:C13.dldr", "ZZ_C13_Ended:C13.ended.done", "ZZ_C13_Capacity:C13.capacity.done", "ZZ_C13_Unknown:C13.unknown.done",
+    "covers": {"all": ["ZZ_C13_ReuseTwo:C13.reuse-two.done", "ZZ_C13_Queue:C13.queue.done", "ZZ_C13_Queue:C13.queue.overflow-dropped", "ZZ_C13_Queue:C13.dldr", "ZZ_C13_Ended:C13.ended.done", "ZZ_C13_Capacity:C13.capacity.done", "ZZ_C13_Unknown:C13.unknown.done",
                        "ZZ_C13_Notify:C13.notify.done", "ZZ_C13_Release:C13.release.done", "ZZ_C13_Release:C13.release.forw", "ZZ_C13_Release:C13.release.drop",
                        "ZZ_C13_Release:C13.release.keep", "ZZ_C13_Release:C13.release.not-buffering", "ZZ_C13_Release:C13.release.forw-no-tunnel",
                        "ZZ_C13_Release:C13.release.action-before-farid"]},
-    "bounds": {"quick": "PFCP side: two sessions created with the real LocalNode.NewSess(rSeid, qlen), qlen in {1,2}; qlen+1 buffer notifications each for session 1 or 2 with symbolic PDR id, action word and payload (empty or 2 bytes); then the queues are drained through PopBufPkt; session end (deletion / re-association) and SEID reuse, after which the new session (and a session of another node) buffers a packet of its own under the same or another PDR id and must get back exactly that; unknown SEIDs; one concrete run at the production capacity (513 packets into BUFFQ_LEN=512). Data-plane side: BUFFER netlink message with symbolic SEID, PDR, action, 1..4 payload bytes in both attribute orders; Update FAR with symbolic new action (both IE orders) against a simulated kernel whose FAR record has a symbolic current action, 1..2 related PDRs, outer header creation present/absent (symbolic TEID, two peers), 0..2 QERs with symbolic QFIs, with held packets for related PDRs, an unrelated PDR and another session; the update request itself must address (SEID, FAR id) of the IE and every lookup the session's own SEID",
+    "bounds": {"quick": "PFCP side: two sessions created with the real LocalNode.NewSess(rSeid, qlen), qlen in {1,2}; qlen+1 buffer notifications each for session 1 or 2 with symbolic PDR id, action word and payload (empty or 2 bytes); then the queues are drained through PopBufPkt; session end (deletion / re-association) and SEID reuse, after which the new session (and a session of another node) buffers a packet of its own under the same or another PDR id and must get back exactly that; unknown SEIDs; one concrete run at the production capacity (513 packets into BUFFQ_LEN=512). Data-plane side: BUFFER netlink message with symbolic SEID, PDR, action, 1..4 payload bytes in both attribute orders; Update FAR with symbolic new action (both IE orders) against a simulated kernel whose FAR record has a symbolic current action, 1..2 related PDRs, outer header creation present/absent (symbolic TEID, two peers), 0..2 QERs with symbolic QFIs, with held packets for related PDRs, an unrelated PDR and another session; the update request itself must address (SEID, FAR id) of the IE and every lookup the session's own SEID; three sessions, two deleted in either order, two new ones established (distinct SEIDs, a buffered packet stays with its session)",
                "thorough": "same with qlen in {1,2,3}"},
     "outside": "histories interleaving several FAR updates; more than two related PDRs; the integrated run PfcpServer + Gtp5g in one state (the two sides meet at report.Handler, whose two methods are the harness boundary)",
     "assumptions": PFCP_ASSUME + FWD_ASSUME,
